@@ -199,6 +199,22 @@ CHECKS = {
                 'SHA-1/base64 are specified in TLA+ and self-checked against the RFC 6455 example.',
         'technique': 'TLA+ reference codec (WsCodec/Sha1) + TLC batch validation of recorded build/parse executions',
     },
+    'C17': {
+        'text': 'Dispatch.tla models the one place where the execution modes differ: the hand-off of an accepted connection (address + '
+                'descriptor as two pipe messages from concurrent senders to a remote worker, one object in the other modes); TLC checks '
+                'PairsMatch and AllHandedOver with the per-worker lock and requires PairsMatch to FAIL without it (vacuity guard). The REAL '
+                'delegate_work_to_pool is called with recording lock / pipe / send_handle and TLC (TraceModes) checks the locked discipline '
+                'on the recorded call log. RealNet differential: REAL proxy processes in threaded, local-threadless and remote-threadless '
+                'mode x {1,2,(4)} acceptors / workers serve a corpus of 16..18 conversations (forward GET / POST / chunked / keep-alive / '
+                'segmented / 2 MiB response, CONNECT tunnel, failing upstreams, malformed and unauthenticated requests, web 404, reverse '
+                'proxy, half-close, truncated request), one by one and with concurrent clients; TLC compares the per-connection '
+                'transcripts ACROSS MODES (client bytes, end-of-stream, what the origins received, by tag).',
+        'design_ref': 'DESIGN.md section 6, C17',
+        'note': 'Trusted: TLC, the kernel, loopback timing (reads wait up to 8 s for the first byte and end after 0.5 s of silence). OS '
+                'scheduling beyond concurrent clients is not explored; deviations common to all modes are reported by other properties.',
+        'technique': 'TLA+ hand-off model (Dispatch) + TLC validation of the recorded delegate call log + differential comparison by TLC of '
+                     'transcripts from real proxy processes in the three modes',
+    },
     'C18': {
         'text': 'Design model EventBus.tla (one FIFO queue, dispatcher table, per-subscription channels, breakage) checked exhaustively by '
                 'TLC over all interleavings of subscribe, unsubscribe (known / unknown / repeated ids), publish, break and dispatch for '
